@@ -89,6 +89,10 @@ def op_alphabet(alpha):
         ops += [('append', a), ('append_direct', a)]
     for b in itertools.product(alpha, repeat=2):
         ops += [('iadd', b), ('extend_direct', b)]
+    # batches of three in which prepend-type arguments are separated by something else (the batch is ONE increment)
+    for b in itertools.product(['-Ia', '-Dx', '-Ib', 'x.c'], repeat=3):
+        if len(set(b)) == 3:
+            ops.append(('iadd', b))
     ops += [('copy',), ('read',)]
     ops += [('insert', 0, alpha[0]), ('insert', 1, alpha[2])]
     return ops
